@@ -533,7 +533,7 @@ fn answer(game: &mut GameData, q: &str) -> String {
     }
 }
 
-fn run_idx(file: &str, qs: &str) -> String {
+pub(crate) fn run_idx(file: &str, qs: &str) -> String {
     let Some(content) = unhex(file) else { return "bad-case".into() };
     let tmp = TempDir::new("c01i");
     let path = tmp.path().join("000000.win32.index");
